@@ -209,6 +209,7 @@ def check_smooth(L, m, P, c, wit, rng, si):
         for integ, bias in ((E.mjINT_IMPLICIT, 1), (E.mjINT_IMPLICITFAST, 0)):
             m.opt["integrator"] = integ
             name = "implicit" if bias else "implicitfast"
+            d["ctrl"][:] = raw_ctrl            # each integrator is first compared with the controls as the user wrote them
             if bias:
                 F1, F2 = Dn1 - Db1, Dn2 - Db2
             else:
